@@ -177,7 +177,7 @@ def makeheredoc (id : Nat) (killleading : Bool) : M Unit := do
   let document := fin.document
   let endpos := (← curIdx) - 1
   let l ← get
-  let pos := if cell.pos.2 + 1 ≤ startpos then (cell.pos.1, endpos) else cell.pos
+  let pos := if cell.pos.2 + 1 == startpos then (cell.pos.1, endpos) else cell.pos
   let cell' : RedirCell :=
     { cell with heredoc := some (Node.heredoc (startpos, endpos) document), pos := pos }
   set { l with store := l.store.set id cell' }
@@ -252,7 +252,8 @@ structure MPState where
   passnextchar : Bool := false
   ret : Str := []
 
-def isDolOp (c : Char) : Bool := "#%^,~:-=?+/".toList.contains c
+def isDolOp (c : Char) : Bool :=
+  ['#', '%', '^', ',', '~', ':', '-', '=', '?', '+', '/'].contains c
 def isDolOpen (c : Char) : Bool := c == '(' || c == '{' || c == '['
 
 /-- the prologue of `_parse_matched_pair`: returns (lookforcomments, rdquote) -/
@@ -468,15 +469,15 @@ def csC (P : CSParams) (checkcase : Bool) (st : CSState) (c : Char) : M (Step CS
     if isLowerAscii c then
       return .cont { st with ret := st.ret ++ [c], lexrwlen := st.lexrwlen + 1 }
     else if st.lexrwlen == 4 && (← shellbreak c) then
-      if pyLastN st.ret 4 == "case".toList then st := { st with insidecase := true }
-      else if pyLastN st.ret 4 == "esac".toList then st := { st with insidecase := false }
+      if pyLastN st.ret 4 == ['c', 'a', 's', 'e'] then st := { st with insidecase := true }
+      else if pyLastN st.ret 4 == ['e', 's', 'a', 'c'] then st := { st with insidecase := false }
       st := { st with reservedwordok := false }
     else if checkcomment && c == '#' &&
         (st.lexrwlen == 0 || (st.insideword && st.lexwlen == some 0)) then
       -- (`insideword` implies `lexwlen` is bound)
       pure ()
     else if !st.insidecase && (shellblank c || c == '\n') && st.lexrwlen == 2 &&
-        pyLastN st.ret 2 == "do".toList then
+        pyLastN st.ret 2 == ['d', 'o'] then
       st := { st with lexrwlen := 0 }
     else if st.insidecase && c != '\n' then
       st := { st with reservedwordok := false }
@@ -610,10 +611,43 @@ end
 
 /-! ## tokens -/
 
+/-- `TokType.strValue` as a character list (string literals cost axioms in `#print axioms`);
+    tied to the table of Basic.lean by the `example` below -/
+def TokType.strValueChars : TokType → Option Str
+  | .BANG => some ['!'] | .AND_AND => some ['&', '&'] | .OR_OR => some ['|', '|']
+  | .GREATER_GREATER => some ['>', '>'] | .LESS_LESS => some ['<', '<']
+  | .LESS_AND => some ['<', '&'] | .LESS_LESS_LESS => some ['<', '<', '<']
+  | .GREATER_AND => some ['>', '&'] | .SEMI_SEMI => some [';', ';'] | .SEMI_AND => some [';', '&']
+  | .SEMI_SEMI_AND => some [';', ';', '&'] | .LESS_LESS_MINUS => some ['<', '<', '-']
+  | .AND_GREATER => some ['&', '>'] | .AND_GREATER_GREATER => some ['&', '>', '>']
+  | .LESS_GREATER => some ['<', '>'] | .GREATER_BAR => some ['>', '|']
+  | .BAR_AND => some ['|', '&'] | .EOF => some ['$', 'e', 'n', 'd'] | .LEFT_PAREN => some ['(']
+  | .RIGHT_PAREN => some [')'] | .BAR => some ['|'] | .SEMICOLON => some [';']
+  | .DASH => some ['-'] | .NEWLINE => some ['\n'] | .LESS => some ['<'] | .GREATER => some ['>']
+  | .AMPERSAND => some ['&']
+  | _ => none
+
+example : TokType.all.all (fun t => t.strValueChars == t.strValue.map String.toList) = true := by
+  decide
+
+/-- `valid_reserved_first_command` with character-list keys -/
+def reservedFirstCommandChars : List (Str × TokType) :=
+  [(['i', 'f'], .IF), (['t', 'h', 'e', 'n'], .THEN), (['e', 'l', 's', 'e'], .ELSE),
+   (['e', 'l', 'i', 'f'], .ELIF), (['f', 'i'], .FI), (['c', 'a', 's', 'e'], .CASE),
+   (['e', 's', 'a', 'c'], .ESAC), (['f', 'o', 'r'], .FOR), (['s', 'e', 'l', 'e', 'c', 't'], .SELECT),
+   (['w', 'h', 'i', 'l', 'e'], .WHILE), (['u', 'n', 't', 'i', 'l'], .UNTIL), (['d', 'o'], .DO),
+   (['d', 'o', 'n', 'e'], .DONE), (['i', 'n'], .IN),
+   (['f', 'u', 'n', 'c', 't', 'i', 'o', 'n'], .FUNCTION), (['t', 'i', 'm', 'e'], .TIME),
+   (['{'], .LEFT_CURLY), (['}'], .RIGHT_CURLY), (['!'], .BANG), (['[', '['], .COND_START),
+   ([']', ']'], .COND_END), (['c', 'o', 'p', 'r', 'o', 'c'], .COPROC)]
+
+example : reservedFirstCommandChars = reservedFirstCommand.map (fun p => (p.1.toList, p.2)) := by
+  decide
+
 /-- the value of an enum member (`tokentype.X.value`) -/
 def TokType.enumValue (t : TokType) : TVal :=
-  match t.strValue with
-  | some s => .str s.toList
+  match t.strValueChars with
+  | some s => .str s
   | none =>
     .int (match t with
       | .IF => 1 | .THEN => 2 | .ELSE => 3 | .ELIF => 4 | .FI => 5 | .CASE => 6 | .ESAC => 7
@@ -682,15 +716,15 @@ def specialcasetokens (tokstr : Str) : M (Option TokType) := do
   let last := l.lastReadToken
   let before := l.tokenBeforeThat
   if last.is .WORD && (before.is .FOR || before.is .CASE || before.is .SELECT) &&
-      tokstr == "in".toList then
+      tokstr == ['i', 'n'] then
     if before.is .CASE then
       set { l with ps := { l.ps with casepat := true }, esacsNeeded := l.esacsNeeded + 1 }
     return some .IN
-  if last.is .WORD && (before.is .FOR || before.is .SELECT) && tokstr == "do".toList then
+  if last.is .WORD && (before.is .FOR || before.is .SELECT) && tokstr == ['d', 'o'] then
     return some .DO
   if l.esacsNeeded != 0 then
     modify fun l => { l with esacsNeeded := l.esacsNeeded - 1 }
-    if tokstr == "esac".toList then
+    if tokstr == ['e', 's', 'a', 'c'] then
       modify fun l => { l with ps := { l.ps with casepat := false } }
       return some .ESAC
   if (← get).ps.allowopnbrc then
@@ -698,7 +732,7 @@ def specialcasetokens (tokstr : Str) : M (Option TokType) := do
     if tokstr == ['{'] then
       modify fun l => { l with openBraceCount := l.openBraceCount + 1 }
       return some .LEFT_CURLY
-  if last.is .ARITH_FOR_EXPRS && tokstr == "do".toList then
+  if last.is .ARITH_FOR_EXPRS && tokstr == ['d', 'o'] then
     return some .DO
   if last.is .ARITH_FOR_EXPRS && tokstr == ['{'] then
     modify fun l => { l with openBraceCount := l.openBraceCount + 1 }
@@ -707,9 +741,9 @@ def specialcasetokens (tokstr : Str) : M (Option TokType) := do
   if l.openBraceCount != 0 && reservedWordAcceptable l l.lastReadToken && tokstr == ['}'] then
     set { l with openBraceCount := l.openBraceCount - 1 }
     return some .RIGHT_CURLY
-  if last.is .TIME && tokstr == "-p".toList then return some .TIMEOPT
-  if last.is .TIMEOPT && tokstr == "--".toList then return some .TIMEIGN
-  if l.ps.condexpr && tokstr == "]]".toList then return some .COND_END
+  if last.is .TIME && tokstr == ['-', 'p'] then return some .TIMEOPT
+  if last.is .TIMEOPT && tokstr == ['-', '-'] then return some .TIMEIGN
+  if l.ps.condexpr && tokstr == [']', ']'] then return some .COND_END
   return none
 
 /-! ## _readtokenword -/
@@ -834,7 +868,7 @@ def finishWord (st : RWState) : M Token := do
   | none => pure ()
   let l ← get
   if !st.dollarPresent && !st.quoted && reservedWordAcceptable l l.lastReadToken then
-    match reservedFirstCommand.lookup (String.ofList tokenword) with
+    match reservedFirstCommandChars.lookup tokenword with
     | some ttype =>
       let ps := l.ps
       if ps.casepat && ttype != .ESAC then pure ()
